@@ -2,7 +2,7 @@
    N / Z / positive stay the extracted inductive types (values reach 2^64). *)
 From Coq Require Import String.
 From Coq Require Extraction ExtrOcamlBasic.
-From P2PV Require Import Lib.Base Run.RunC15 Run.RunCache Run.RunC20 Run.RunC17 Run.RunC16 Run.RunFrag Run.RunStack Run.RunC01 Run.RunC08 Run.RunChan Run.RunC06 Run.RunSession.
+From P2PV Require Import Lib.Base Run.RunC15 Run.RunCache Run.RunC20 Run.RunC17 Run.RunC16 Run.RunFrag Run.RunStack Run.RunC01 Run.RunC08 Run.RunChan Run.RunHub Run.RunC06 Run.RunSession.
 Open Scope N_scope.
 
 Definition run (prop : list N) (case obs : sx) : sx :=
@@ -18,6 +18,8 @@ Definition run (prop : list N) (case obs : sx) : sx :=
   else if bytes_eqb prop (sym_of_string "C08") then run_C08 case obs
   else if bytes_eqb prop (sym_of_string "C05") then run_C05 case obs
   else if bytes_eqb prop (sym_of_string "C07") then run_C07 case obs
+  else if bytes_eqb prop (sym_of_string "C12") then run_hub case obs
+  else if bytes_eqb prop (sym_of_string "C13") then run_hub case obs
   else if bytes_eqb prop (sym_of_string "C06") then run_C06 case obs
   else if bytes_eqb prop (sym_of_string "C03") then run_sessions case obs
   else if bytes_eqb prop (sym_of_string "C02") then run_sessions case obs
